@@ -113,3 +113,9 @@ const (
 	maximumTTL = 12 * time.Hour
 	defaultCap = 1024 * 256
 )
+
+// MaximumTTL is the longest lease a delegation may be held for, however long
+// the TTLs its parent published. Exported so the resolver can apply the same
+// ceiling to the deadline it hands to the answer cache and to deeper
+// delegations, anchored at the instant the referral was observed.
+const MaximumTTL = maximumTTL
